@@ -30,6 +30,34 @@ ASC_SAMPLE = {
     (0x44, 0x00): "INTERNAL TARGET FAILURE",
     (0x47, 0x00): "SCSI PARITY ERROR",
     (0x00, 0x1D): "ATA PASS THROUGH INFORMATION AVAILABLE",
+    (0x01, 0x00): "NO INDEX/SECTOR SIGNAL",
+    (0x02, 0x00): "NO SEEK COMPLETE",
+    (0x03, 0x00): "PERIPHERAL DEVICE WRITE FAULT",
+    (0x04, 0x00): "LOGICAL UNIT NOT READY, CAUSE NOT REPORTABLE",
+    (0x04, 0x04): "LOGICAL UNIT NOT READY, FORMAT IN PROGRESS",
+    (0x08, 0x00): "LOGICAL UNIT COMMUNICATION FAILURE",
+    (0x0C, 0x00): "WRITE ERROR",
+    (0x10, 0x00): "ID CRC OR ECC ERROR",
+    (0x14, 0x00): "RECORDED ENTITY NOT FOUND",
+    (0x15, 0x00): "RANDOM POSITIONING ERROR",
+    (0x1A, 0x00): "PARAMETER LIST LENGTH ERROR",
+    (0x1B, 0x00): "SYNCHRONOUS DATA TRANSFER ERROR",
+    (0x2C, 0x00): "COMMAND SEQUENCE ERROR",
+    (0x2F, 0x00): "COMMANDS CLEARED BY ANOTHER INITIATOR",
+    (0x30, 0x00): "INCOMPATIBLE MEDIUM INSTALLED",
+    (0x31, 0x00): "MEDIUM FORMAT CORRUPTED",
+    (0x39, 0x00): "SAVING PARAMETERS NOT SUPPORTED",
+    (0x3A, 0x01): "MEDIUM NOT PRESENT - TRAY CLOSED",
+    (0x3A, 0x02): "MEDIUM NOT PRESENT - TRAY OPEN",
+    (0x40, 0x00): "RAM FAILURE (SHOULD USE 40 NN)",
+    (0x43, 0x00): "MESSAGE ERROR",
+    (0x45, 0x00): "SELECT OR RESELECT FAILURE",
+    (0x49, 0x00): "INVALID MESSAGE ERROR",
+    (0x4E, 0x00): "OVERLAPPED COMMANDS ATTEMPTED",
+    (0x53, 0x00): "MEDIA LOAD OR EJECT FAILED",
+    (0x53, 0x02): "MEDIUM REMOVAL PREVENTED",
+    (0x55, 0x04): "INSUFFICIENT REGISTRATION RESOURCES",
+    (0x5D, 0x00): "FAILURE PREDICTION THRESHOLD EXCEEDED",
 }
 
 
